@@ -21,10 +21,10 @@ CHECKS = {
          'A synchronized consumer is stalled for 3 s / 30 s (thorough: 300 s) of virtual time at a generated point (sole consumer, one of several, behind one or two relays; required or not; producer faster/equal/slower; replicas with one configured id, ephemeral source listed first, non-blocking publisher, balanced feeder). The transport log gives the number of further ids each upstream publisher publishes until the consumer resumes or has been silent for the connection timeout (bound 9 per hop), the transport\'s own gauge gives the number of distinct ids queued towards a consumer (bound 9 towards the stalled consumer, 9 per hop of distance for relays blocked behind it, 20 for free-running siblings), and the same seed must give the same overrun for all stall lengths.',
          'Delays below the request interval, no loss (the property\'s preconditions); what fills a forgotten consumer\'s socket after the connection timeout is bounded by ZeroMQ\'s high-water mark, not by this property.', '6 C04'),
  'C05': ('simnet', 'exploration',
-         'Paired executions with and without ?/?? consumers (fast, >= 2 s per frame, stalled 1000 s, killed, restarted; lossy links; an ephemeral branch rejoined as ephemeral source), same seed, constant per-link latency: synchronized consumers\' input histories must be identical, with the listeners attached no gap between publications may exceed one round trip of the slowest synchronized consumer + its processing + the publisher period + 1 s while one wait for an ephemeral would cost >= 2 s, ?? listeners must never open a request socket or send a request, ephemeral deliveries must be complete and non-decreasing. Variants: ephemeral source listed before/after the synchronized one, a ? listener whose request ids are ahead of the publisher, balanced publishers (the branch carrying the listeners must not be starved), long pairs beyond the transport buffering (PUB 20 + SUB 1000 messages), unpaired safety runs with random delays.',
+         'Paired executions with and without ?/?? consumers (fast, >= 2 s per frame, stalled 1000 s, killed, restarted; lossy links; an ephemeral branch rejoined as ephemeral source), same seed, constant per-link latency: synchronized consumers\' input histories must be identical, with the listeners attached no gap between publications may exceed one round trip of the slowest synchronized consumer + its processing + the publisher period + 1 s while one wait for an ephemeral would cost >= 2 s, ?? listeners must never open a request socket or send a request, ephemeral deliveries must be complete and non-decreasing. Variants: ephemeral source listed before/after the synchronized one, a ? listener whose request ids are ahead of the publisher, balanced publishers (the branch carrying the listeners must not be starved), long pairs beyond the transport buffering (PUB 20 + SUB 1000 messages), unpaired safety runs with random delays (publisher restarts, sparse ephemeral branch with a latency bound for the synchronized half of a rejoin), a ZMQ-API level twin run. Two mechanisms are recorded as known findings (id reuse after SIGKILL of an ephemeral publisher; a consumer held in the receive loop by HELLO broadcasts for listeners that are still connecting).',
          'Synchronized consumers are required outputs in both runs; constant link latencies; simulated transport as in C01.', '6 C05'),
  'C06': ('simnet', 'fault_enumeration',
-         'Liveness is judged as bounded progress in virtual time. For chain / tee / tee-rejoin / balanced topologies a fault-free reference run gives N scheduler steps; victims x kill steps (sampled in quick, swept in thorough) x restart delays {0, 1 s, 7 s} are re-executed with the same seed: every live synchronized sink must get a new frame within ZMQ_CONN_TIMEOUT + 2 s after the last fault action (2 s otherwise), C02 ordering must still hold, a publisher must not publish while its required output is absent; also a non-required consumer dying for good.',
+         'Liveness is judged as bounded progress in virtual time. For chain / tee / tee-rejoin / balanced topologies a fault-free reference run gives N scheduler steps; victims x kill steps (sampled in quick, swept in thorough) x restart delays {0, 1 s, 7 s} are re-executed with the same seed: every live synchronized sink must get a new frame within 2 x ZMQ_CONN_TIMEOUT + 2 s after the last fault action (2 s otherwise), C02 ordering must still hold, a publisher must not publish while its required output is absent; also a non-required consumer dying for good or falling silent (Filter pipelines and raw ZMQ-API nodes). One mechanism is recorded as a known finding (order across the restart of a balanced joiner).',
          'No finite run decides "eventually": the bound is a restatement; two simultaneous kills are not generated; simulated transport as in C01.', '6 C06'),
  'C07': ('simnet', 'exploration',
          'Balanced splitter with 2-4 branches (worker speed profiles equal / one slow / all different / varying, optional second worker per branch, optional ?? watchers, delays to 95 ms and slow links): every message id on exactly one PUB socket, no original seen by two first-hop workers, joiner sets from one source and one id, joiner sequence strictly increasing. The same generator and checkers also run on real pyzmq with one process per filter (sampled).',
